@@ -247,8 +247,12 @@ class Patched:
     def __enter__(self):
         global SCHED
         import mido.ports as mp
+        import mido.backends._parser_queue as pq
         self.mp = mp
+        self.pq = pq
         self.saved = (mp.threading, mp.sleep)
+        self.saved_pq = pq.RLock
+        pq.RLock = CoopRLock
         mp.threading = _ThreadingShim()
         hook = self.sleep_hook
 
@@ -263,6 +267,7 @@ class Patched:
     def __exit__(self, *a):
         global SCHED
         self.mp.threading, self.mp.sleep = self.saved
+        self.pq.RLock = self.saved_pq
         SCHED = None
         return False
 
@@ -297,3 +302,26 @@ def make_wire_port_class():
                 self._parser.feed_byte(self.rwire.get())
 
     return WirePort
+
+
+class AnnQueue:
+    """Announcing wrapper around the queue.Queue of a ParserQueue (its own
+    operations are atomic: queue.Queue is internally locked)."""
+
+    def __init__(self, q):
+        self.q = q
+
+    def put(self, x):
+        _announce('qput', self)
+        self.q.put(x)
+
+    def get_nowait(self):
+        _announce('qget', self)
+        return self.q.get_nowait()
+
+    def get(self):
+        _announce('qget', self)
+        return self.q.get_nowait()      # never block the only runnable OS thread
+
+    def qsize(self):
+        return self.q.qsize()
